@@ -2,6 +2,7 @@ package props
 
 import (
 	"bytes"
+	"errors"
 	"fmt"
 	"io"
 	"os"
@@ -105,16 +106,25 @@ func runC14(c any, x *kit.Ctx) {
 	defer os.Remove(path)
 
 	// what go-car's own index generation records for this payload: Offset must agree with it
+	// (index generation is another function with a policy of its own: when it refuses the payload, or hands out an
+	// index that cannot be walked, the cross-check is skipped and the fact recorded; that is not a violation of C14)
 	idxOffsets := map[string][]uint64{}
+	haveIdx := false
 	if gi, err := carv2.GenerateIndex(bytes.NewReader(payload), carv2.StoreIdentityCIDs(true)); err == nil {
 		if it, ok := gi.(index.IterableIndex); ok {
-			it.ForEach(func(mh multihash.Multihash, off uint64) error {
+			if err := it.ForEach(func(mh multihash.Multihash, off uint64) error {
 				idxOffsets[string(mh)] = append(idxOffsets[string(mh)], off)
 				return nil
-			})
+			}); err == nil {
+				haveIdx = true
+			} else {
+				x.Outcome("beyond-statement:generate-index-foreach-fails")
+			}
+		} else {
+			x.Outcome("beyond-statement:generate-index-not-iterable")
 		}
 	} else {
-		x.Fail("c14:generate-index", "GenerateIndex fails on the valid payload: %v", err)
+		x.Outcome("beyond-statement:generate-index-fails")
 	}
 
 	n := len(blks)
@@ -229,15 +239,18 @@ func runC14(c any, x *kit.Ctx) {
 			if cs.Cont != "v1" {
 				wantV = 2
 			}
+			// Version and Roots are documented fields the statement says nothing about (a wrong header width shows
+			// in the offsets below): recorded, never a violation
 			if br.Version != wantV {
-				fail("c14:version:"+tag, "BlockReader.Version=%d want %d", br.Version, wantV)
+				x.Outcome("beyond-statement:version-field-differs")
 			}
 			if len(br.Roots) != len(rootRaws) {
-				fail("c14:roots:"+tag, "BlockReader.Roots has %d entries want %d", len(br.Roots), len(rootRaws))
+				x.Outcome("beyond-statement:roots-field-differs")
 			} else {
 				for i, r := range br.Roots {
 					if !bytes.Equal(r.Bytes(), rootRaws[i]) {
-						fail("c14:roots:"+tag, "root #%d differs", i)
+						x.Outcome("beyond-statement:roots-field-differs")
+						break
 					}
 				}
 			}
@@ -257,30 +270,45 @@ func runC14(c any, x *kit.Ctx) {
 					if md.Offset != sec.Offset {
 						fail("c14:offset:"+tag, "SkipNext #%d (choices %0*b) Offset=%d want %d", i, n, mask, md.Offset, sec.Offset)
 					}
-					if md.SourceOffset != base+sec.Offset {
+					// SourceOffset counts from where the archive starts in the source; a seekable source that was
+					// handed over at a non-zero position may equally be reported in absolute positions of that source
+					// (the statement and the doc comment leave the origin open in that case)
+					srcBytes := arch
+					if absSO := uint64(prefix) + base + sec.Offset; prefix > 0 && md.SourceOffset == absSO &&
+						(srcKind == "bytes" || srcKind == "file" || srcKind == "rawfile") {
+						srcBytes = file
+					} else if md.SourceOffset != base+sec.Offset {
 						fail("c14:source-offset:"+tag, "SkipNext #%d (choices %0*b) SourceOffset=%d want %d", i, n, mask, md.SourceOffset, base+sec.Offset)
 					}
 					if md.Size != uint64(len(sec.Data)) {
 						fail("c14:size:"+tag, "SkipNext #%d (choices %0*b) Size=%d want %d", i, n, mask, md.Size, len(sec.Data))
 					}
 					// the bytes found at that offset of the archive are this section: length prefix, then the CID
-					if so := md.SourceOffset; so < uint64(len(arch)) {
-						l, vn, err := refcar.Uvarint(arch[so:])
-						if err != nil || l != uint64(len(sec.Cid)+len(sec.Data)) || !bytes.HasPrefix(arch[int(so)+vn:], sec.Cid) {
+					if so := md.SourceOffset; so < uint64(len(srcBytes)) {
+						l, vn, err := refcar.Uvarint(srcBytes[so:])
+						if err != nil || l != uint64(len(sec.Cid)+len(sec.Data)) || !bytes.HasPrefix(srcBytes[int(so)+vn:], sec.Cid) {
 							fail("c14:source-offset-bytes:"+tag, "the bytes at SourceOffset %d are not this section's length prefix and CID", so)
 						}
 					} else {
 						fail("c14:source-offset-bytes:"+tag, "SourceOffset %d lies outside the archive", md.SourceOffset)
 					}
 					// ... and Offset is an offset go-car's own index generation records for that multihash
-					if c, err := cid.Cast(sec.Cid); err == nil {
+					if c, err := cid.Cast(sec.Cid); err == nil && haveIdx {
 						found := false
 						for _, o := range idxOffsets[string(c.Hash())] {
 							if o == md.Offset {
 								found = true
 							}
 						}
-						if !found {
+						// an index need not record every copy of a block that the payload repeats: Offset has to be
+						// among the recorded ones only when the index records one offset per section of that multihash
+						copies := 0
+						for _, o := range pl.Sections {
+							if oc, err := cid.Cast(o.Cid); err == nil && bytes.Equal(oc.Hash(), c.Hash()) {
+								copies++
+							}
+						}
+						if !found && len(idxOffsets[string(c.Hash())]) >= copies {
 							fail("c14:offset-vs-index:"+tag, "SkipNext #%d Offset=%d is not among the offsets GenerateIndex records for that multihash (%v)", i, md.Offset, idxOffsets[string(c.Hash())])
 						}
 					}
@@ -311,14 +339,20 @@ func runC14(c any, x *kit.Ctx) {
 				if n < 2 {
 					second = (mask+n)%2 == 0
 				}
-				if err := call(first); err != io.EOF {
-					fail("c14:eof:"+tag, "call after the last block (choices %0*b, skip=%v) returned %v want io.EOF", n, mask, first, err)
+				// the visited sequence ends where the archive ends: the call after the last block must signal the end
+				// (io.EOF, possibly wrapped), not hand out another block or fail otherwise. That the end is sticky
+				// and that the value is the bare io.EOF are documented, not part of the statement: recorded only.
+				err1 := call(first)
+				if !errors.Is(err1, io.EOF) {
+					fail("c14:eof:"+tag, "call after the last block (choices %0*b, skip=%v) returned %v want io.EOF", n, mask, first, err1)
+				} else if err1 != io.EOF {
+					x.Outcome("beyond-statement:eof-wrapped")
 				}
 				if err := call(second); err != io.EOF {
-					fail("c14:eof-sticky:"+tag, "second call after the end (skip=%v) returned %v want io.EOF", second, err)
+					x.Outcome("beyond-statement:eof-not-sticky")
 				}
 				if err := call(!second); err != io.EOF {
-					fail("c14:eof-sticky:"+tag, "third call after the end (skip=%v) returned %v want io.EOF", !second, err)
+					x.Outcome("beyond-statement:eof-not-sticky")
 				}
 			}
 			if cs.Cont != "v1" {
@@ -425,7 +459,9 @@ func init() {
 		Rule: "every archive with up to N blocks over an alphabet of CID widths 4..68 and section lengths at varint boundaries x {CARv1, CARv2, padded CARv2 with index} x {verifying, TrustedCAR} x EVERY Next/SkipNext choice string (2^n) " +
 			"x {bytes.Reader, plain stream, one-byte-read stream, data-with-EOF stream, wrapped *os.File, raw *os.File, *os.File over a pipe}; crossed (reduced length) with 10 header shapes (0..400 roots: length prefix 1-3 bytes, null/empty/CIDv0/sha512/duplicate roots), " +
 			"a source positioned 1/200/5000 bytes into its stream, and ZeroLengthSectionAsEOF with 0/1/3 bytes of null padding; sections of 70000 and 2^21 bytes; " +
-			"metadata compared with the reference layout, with the bytes at those offsets and with go-car's own GenerateIndex; Version/Roots compared; every {Next,SkipNext} pair (and a third call) at the end must give io.EOF; source consumption bounded on every source kind; non-trivial = choice string mixing both calls",
+			"metadata compared with the reference layout, with the bytes at those offsets (SourceOffset of a seekable source handed over at a non-zero position may count from the archive start or from position 0 of the source) and with go-car's own GenerateIndex " +
+			"(where it records one offset per section of the multihash; skipped and recorded when index generation fails); the call after the last block, for every {Next,SkipNext} choice, must signal io.EOF (errors.Is); " +
+			"Version/Roots, bare and sticky io.EOF on further calls are recorded as beyond-statement outcomes only; source consumption bounded on every source kind; non-trivial = choice string mixing both calls",
 		Bound: func(tier string) map[string]any {
 			if tier == "thorough" {
 				return map[string]any{"blocks": "<=5 exhaustive over 9 block shapes, plus selected 6-block and large-section archives", "choice_strings": "all 2^n", "sources": len(c14Sources), "header_shapes": 11, "cross_product_blocks": "<=3"}
@@ -433,6 +469,7 @@ func init() {
 			return map[string]any{"blocks": "<=4 exhaustive over 6 block shapes, plus large-section archives", "choice_strings": "all 2^n", "sources": len(c14Sources), "header_shapes": 10, "cross_product_blocks": "<=2"}
 		},
 		Assumptions: []string{"refcar layout is correct", "a 'valid CAR' has a canonical DAG-CBOR header (a header go-car's lenient decoder accepts but re-encodes at another length is outside the property)",
-			"SourceOffset is relative to where the archive starts in the source (the position at which the source was handed to NewBlockReader)"},
+			"SourceOffset is relative to where the archive starts in the source (the position at which the source was handed to NewBlockReader); for a seekable source handed over at a non-zero position the absolute position in that source is accepted as well",
+			"an index may record fewer offsets than the payload has copies of a block: Offset must be among the recorded ones only when there is one per copy"},
 	})
 }
